@@ -465,7 +465,7 @@ extern "C" fn on_abort(_sig: libc::c_int) {
                     // <root>/findings/C05-abort-<shard>.json
                     let mut path = [0u8; 512];
                     let d = dir.as_bytes();
-                    let tail = b"/C05-abort-";
+                    let tail = b"/abort-case-";
                     let mut k = 0;
                     for x in d.iter().chain(tail.iter()) {
                         if k < 480 {
@@ -484,10 +484,16 @@ extern "C" fn on_abort(_sig: libc::c_int) {
                     if fd >= 0 {
                         w(fd, std::slice::from_raw_parts(slot.buf.get() as *const u8, n));
                         libc::close(fd);
-                        w(1, b"VIOLATION property=C05 replay=");
+                        if ABORT_IS_VIOLATION.load(Ordering::SeqCst) {
+                            w(1, b"VIOLATION property=C05 replay=");
+                            w(1, &path[..k]);
+                            w(1, b"\n  the process aborted while running this case (abort, stack overflow or allocation failure)\n");
+                            libc::_exit(1);
+                        }
+                        w(1, b"INCONCLUSIVE: the process aborted (allocation failure or stack overflow) while running the case saved in ");
                         w(1, &path[..k]);
-                        w(1, b"\n  the process aborted while running this case (abort, stack overflow or allocation failure)\n");
-                        libc::_exit(1);
+                        w(1, b"\n");
+                        libc::_exit(2);
                     }
                 }
             }
@@ -497,7 +503,15 @@ extern "C" fn on_abort(_sig: libc::c_int) {
     }
 }
 
-/// C05 only: an abort inside jawk is a violation of "never panics, aborts or loops forever"
+static ABORT_IS_VIOLATION: AtomicBool = AtomicBool::new(false);
+
+/// Every property: an abort is reported with the case that was running. For C05 an abort inside
+/// jawk is a violation of "never panics, aborts or loops forever"; elsewhere it is inconclusive.
+pub fn install_abort_reporter_for(root: &Path, violation: bool) {
+    ABORT_IS_VIOLATION.store(violation, Ordering::SeqCst);
+    install_abort_reporter(root);
+}
+
 pub fn install_abort_reporter(root: &Path) {
     let dir = root.join("findings");
     let _ = std::fs::create_dir_all(&dir);
@@ -547,7 +561,8 @@ pub fn run_check<C: Check>(chk: &C, ctx: &mut Ctx) {
     let tier = ctx.tier;
     let known_keys: Vec<String> = ctx.known.iter().filter(|k| k.property == ctx.property).map(|k| k.key.clone()).collect();
     let seed = ctx.seed;
-    let is_c05 = ctx.property == "C05";
+    let prop_owned = ctx.property.clone();
+    let prop_name: &str = &prop_owned;
     let failed_any = AtomicBool::new(false);
     let outs: Vec<ShardOut> = std::thread::scope(|s| {
         let mut hs = Vec::new();
@@ -570,9 +585,7 @@ pub fn run_check<C: Check>(chk: &C, ctx: &mut Ctx) {
                                 return Ok(());
                             }
                             let js = serde_json::to_string(&case).unwrap();
-                            if is_c05 {
-                                slot_set(shard, "C05", name, &js);
-                            }
+                            slot_set(shard, prop_name, name, &js);
                             watch_set(shard, Some((Instant::now(), name.to_string(), js.clone())));
                             // a panic of jawk is caught inside the runner and is a result like any other;
                             // a panic that escapes `check` is the harness' own and must never be
